@@ -27,10 +27,10 @@ pub fn name11(s: &str) -> [u8; 11] {
         None => (s, ""),
     };
     for (i, c) in base.chars().enumerate().take(8) {
-        n[i] = (c as u32 as u8).to_ascii_uppercase();
+        n[i] = crate::names::latin1_upper(c as u32 as u8);
     }
     for (i, c) in ext.chars().enumerate().take(3) {
-        n[8 + i] = (c as u32 as u8).to_ascii_uppercase();
+        n[8 + i] = crate::names::latin1_upper(c as u32 as u8);
     }
     n
 }
